@@ -814,7 +814,8 @@ func directCase(k *h.Case, rf *realFonts) {
 	case x < 8 && rf.ok: // the repository's font_config.json
 		id := h.Pick(r, rf.ids)
 		f = &fontModel{kind: "real", id: id, widths: rf.fc.Fonts[id].Widths}
-		fc = &rf.fc
+		own := rf.fc // every case uses its own FontConfig value (the tables themselves are read-only)
+		fc = &own
 		a = alphabetOf(f.widths, r)
 	default: // built-in TEST font, with an empty or an unrelated config
 		a = randAlphabet(r)
@@ -830,6 +831,21 @@ func directCase(k *h.Case, rf *realFonts) {
 	p := params{overlap: pickOverlap(r), numLines: pickNumLines(r)}
 	p.max = pickMax(r, toks, f, p.overlap)
 	k.SetSource(text)
+	// history: the same FontConfig value first formats the same words with another
+	// font of the config; the judged call must not be influenced by it
+	if h.Chance(r, 0.3) {
+		var others []string
+		for id := range fc.Fonts {
+			if id != f.id {
+				others = append(others, id)
+			}
+		}
+		sort.Strings(others)
+		if len(others) > 0 {
+			callFormat(fc, text, p, h.Pick(r, others))
+			k.Count("direct_calls_after_other_font_history", 1)
+		}
+	}
 	out, err, pan, stack := callFormat(fc, text, p, f.id)
 	k.Count("evaluations", 1)
 	k.Count("texts_direct", 1)
